@@ -91,7 +91,11 @@ func ExtractMetadataStream(c Cursor, ref Object, _ bool) (*MetadataStream, error
 	// decoded length, not the stored length, so it's not a meaningful
 	// pad target on rewrite).
 	plaintext := false
-	if filters, ferr := c.Filters(stream.Dict); ferr == nil {
+	filters, ferr := c.Filters(stream.Dict)
+	if IsReadError(ferr) {
+		return nil, ferr
+	}
+	if ferr == nil {
 		// the bytes on disk are raw XMP iff:
 		//   - in an unencrypted file: there are no filters at all
 		//   - in an encrypted file: the chain is exactly /Crypt /Identity,
